@@ -81,6 +81,7 @@ type Object struct {
 	Wild       bool       // stand-in for the unknown target of a loop-carried pointer: reads are arbitrary, writes are reported
 	Unmodelled bool       // slice of aggregates whose contents are not modelled: loads give fresh values
 	ElemType   types.Type // element type of an unmodelled slice
+	UFrom      *Object    // option functional-nested-slices: the unmodelled slice of slices this inner slice was read from
 	Root       string
 }
 
@@ -92,9 +93,10 @@ type State struct {
 	mem     map[*Object]Value
 	pc      *Term
 	uload   map[string]Value // loads from slices whose contents are not modelled, by cell: a cell read twice without a store in between holds the same (arbitrary) value
-	headObj int   // number of objects allocated when the head of the innermost annotated loop was last crossed (iterfresh)
-	headPC  *Term // path condition at the head of the innermost annotated loop entered (nil: none); used by "+ forget"
-	path    *Term // branch decisions only (conjunction of the conditions of the branches taken); nil = true
+	uver    map[*Object]int  // option functional-nested-slices: version of the (lengths, contents) functions of an unmodelled slice of slices
+	headObj int              // number of objects allocated when the head of the innermost annotated loop was last crossed (iterfresh)
+	headPC  *Term            // path condition at the head of the innermost annotated loop entered (nil: none); used by "+ forget"
+	path    *Term            // branch decisions only (conjunction of the conditions of the branches taken); nil = true
 	ghosts  map[string]*Term
 	srcVar  map[string]Value // source-level variable name -> current value (for register vars) or *PtrV (for addressable)
 	srcAdr  map[string]bool
@@ -128,6 +130,12 @@ func (s *State) clone() *State {
 		n.uload = make(map[string]Value, len(s.uload))
 		for k, v := range s.uload {
 			n.uload[k] = v
+		}
+	}
+	if len(s.uver) > 0 {
+		n.uver = make(map[*Object]int, len(s.uver))
+		for k, v := range s.uver {
+			n.uver[k] = v
 		}
 	}
 	if len(s.cnt) > 0 {
